@@ -35,6 +35,7 @@ CRATES = {
     "core": VERIF / "harness" / "core",
     "adapters": VERIF / "harness" / "adapters",
     "wincon": VERIF / "harness" / "wincon",
+    "parse": VERIF / "harness" / "parse",
 }
 
 BASE_ENV = dict(os.environ)
@@ -321,7 +322,7 @@ def extract_playback(prop: str, crate_dir: Path, job: Job, idx: int):
                 stdout=lf,
                 stderr=subprocess.STDOUT,
                 timeout=job.timeout_s * 2,
-                preexec_fn=_limits(job.mem_gb),
+                preexec_fn=_limits(max(job.mem_gb * 2, 24)),  # building the trace needs more memory
             )
         except subprocess.TimeoutExpired:
             pass
